@@ -211,10 +211,22 @@ func Check(c Case) ([]evid.Violation, info) {
 	if err != nil {
 		return []evid.Violation{evid.V("new-server", "", "NewServer(%v, extras %v): %v", c.Patterns, c.Extras, err)}, in
 	}
+	// the on-the-wire comparison has a mux, a server and connections of its own: nothing it does (late
+	// handler goroutines of net/http included) can reach the recorder the in-process comparison reads
 	var wsSrv, wsMux *bufconn.Listener
 	if c.Wire {
+		b2 := route.Build(rules, nil)
+		var hits2 []string
+		opts2 := []larking.ServerOption{larking.MuxHandleOption(c.Patterns...)}
+		for _, e := range c.Extras {
+			opts2 = append(opts2, larking.HTTPHandlerOption(e, extraHandler{&hits2}))
+		}
+		srv2, err := larking.NewServer(b2.Mux, opts2...)
+		if err != nil {
+			return []evid.Violation{evid.V("new-server", "", "second NewServer(%v, extras %v): %v", c.Patterns, c.Extras, err)}, in
+		}
 		wsSrv, wsMux = bufconn.Listen(1<<20), bufconn.Listen(1<<20)
-		for lis, h := range map[*bufconn.Listener]http.Handler{wsSrv: srv.Handler, wsMux: b.Mux} {
+		for lis, h := range map[*bufconn.Listener]http.Handler{wsSrv: srv2.Handler, wsMux: b2.Mux} {
 			hs := &http.Server{Handler: h}
 			go hs.Serve(lis)
 			defer hs.Close()
